@@ -1,5 +1,5 @@
-"""C18, unit atsp -- ATSPGenerator: the tmat_class loop is Floyd-Warshall; the emitted matrix satisfies the
-triangle inequality (Properties/C18_atsp.v: fw_triangle, gen_atsp_wf).
+"""C18, unit atspgen -- ATSPGenerator: the tmat_class loop is Floyd-Warshall; the emitted matrix satisfies the
+triangle inequality (Properties/C18_atspgen.v: fw_triangle, gen_atsp_wf).
 
 Correspondence
   (b) model vs code, exact: the real ATSPGenerator._generate is run with a dist_sampler that returns chosen
@@ -165,7 +165,7 @@ def run_unit(ctx, proofs_ok):
                 r["what"] = "generated matrix not n x n / negative / diagonal non-zero (code %d)" % c
                 ctx.failure(SIG_FMT, r, tag="atsp")
     ctx.count("atsp_ill_conditioned_triangle_within_rounding", ill)
-    ctx.units["atsp"] = {
+    ctx.units["atspgen"] = {
         "model_vs_code_cases": len(cases), "model_vs_code_disagreements": len(disagree),
         "property_on_exact_outputs": len(pcases), "property_on_generated": len(cases2),
         "triangle_only_within_float_rounding": ill, "property_failures": n_fail,
